@@ -16,7 +16,8 @@ def _(c):
     c.arr("u_poll", 2, [None, "self.D"], nonnull=False)
     c.arr("B", 2, [None, "self.D"], nonnull=False)
     c.arr("gp.temporary_data['poll_scale']", 1, ["self.D"])
-    c.req("gp_poll_scale_positive", "forall(self.D, lambda j: gp.temporary_data['poll_scale'][j] > 0)", props=["C14"])
+    c.typ("gp", obj="GP", fields={"temporary_data['poll_scale']": {"arrspec": (1, ["self.D"], "num", False), "nonnull": True}})
+    c.req("gp_poll_scale_nonzero", "forall(self.D, lambda j: gp.temporary_data['poll_scale'][j] != 0)", props=["C14"])
     c.req("meshes_positive", "self.optim_state['search_mesh_size'] > 0 and self.optim_state['mesh_size'] > 0")
     c.let(nY="count_true(self.function_logger.X_flag)", msi="self.mesh_size_integer", cap='self.options["max_poll_grid_number"]',
           ssi='self.optim_state["search_size_integer"]', fc="self.function_logger.func_count",
@@ -33,6 +34,8 @@ def _(c):
         "c13_good_iff": "iff(certain_good_poll, poll_best_improvement > self.sufficient_improvement)",
         "c13_best_is_gap": "poll_best_improvement == self.fval - f_poll_best and poll_best_improvement >= 0",
         "count": "poll_count >= 0",
+        "c14_at_most_2D": "poll_count <= 2 * self.D and fc - old(fc) <= poll_count",
+        "c14_scale_nonzero": "forall(self.D, lambda j: gp.temporary_data['poll_scale'][j] != 0)",
         "basis_and_set_together": "isnone(B) == isnone(u_poll) and implies(not isnone(B), rows(B) >= 2)",
         "c03_calls_counted": "ghost.n_calls - old(ghost.n_calls) == fc - old(fc) and nY >= old(nY)",
         "c10_no_failure": "not truthy(ghost.target_raised)",
@@ -73,6 +76,7 @@ def _(c):
     c.ens("u_is_best", "implies(" + DET + ", pteq(pt(self.u), pt(self.u_best)))", props=["C04", "C19"])
     inv_c04(c)
     inv_c02(c)
+    c.ens("at_most_2D_points_polled", "fc - old(fc) <= 2 * self.D", top=True, props=["C14"])
     c.ens("level_kept", "self.optim_state['uncertainty_handling_level'] == old(self.optim_state['uncertainty_handling_level'])")
     c.ens("log_only_grows", LOG_GROWS, props=["C19", "C04"])
     c10(c)
